@@ -49,6 +49,13 @@ ENGINES = {
         env={"RUSTFLAGS": "-Zsanitizer=thread"},
         run_env={"TSAN_OPTIONS": "halt_on_error=1 exitcode=66 second_deadlock_stack=1"},
     ),
+    "cov": dict(
+        tdir="cov",
+        build=["cargo", "+nightly", "build", "--release", "--offline"],
+        bin=os.path.join(TARGET, "cov", "release", "gverif"),
+        env={"RUSTFLAGS": "-Cinstrument-coverage"},
+        run_env={},
+    ),
     "miri": dict(
         tdir="miri",
         build=None,
@@ -84,6 +91,12 @@ def build(engine, log):
     log(f"build {engine}: {'ok' if ok else 'FAILED'} in {dt:.1f}s")
     _built[engine] = (ok, dt, msg)
     return _built[engine]
+
+
+def llvm_tool(name):
+    import glob
+    c = glob.glob(os.path.expanduser(f"~/.rustup/toolchains/nightly-*/lib/rustlib/*/bin/{name}"))
+    return c[0] if c else None
 
 
 def command(engine, args, cpus=None, miri_seed=None, miri_cpus=None, miri_many=None):
